@@ -734,3 +734,132 @@ func ruleSpeedText(w *World, r *Report, pfx string) {
 		r.Check(okSuffix, rule, "rate suffix", w.pos(f.Pos()), "per second", "the rate wrapper does not append \"/s\": the number printed is a per-second rate")
 	}
 }
+
+// ruleWriterNew (W-NEW): the terminal writer is wired to the caller's output, and it claims to be a
+// terminal exactly when that output is a file whose descriptor the platform reports as a terminal;
+// IsTerminal / GetTermSize report that wiring (the container decides from IsTerminal whether to
+// draw at all, and takes the row and column limits from GetTermSize).
+func ruleWriterNew(w *World, r *Report, pfx string) {
+	rule := pfx + ".W-NEW"
+	fn := w.Func("cwriter.New")
+	if fn == nil {
+		r.Unresolved("anchor", "cwriter.New", "not found")
+		return
+	}
+	const tW = "cwriter.Writer"
+	bad := ""
+	sawTerm, sawPlain := false, false
+	nP, over := w.enumPaths(fn, pathOpts{InlineDepth: 2, Inline: w.helperInline(fn)}, func(p *Path) {
+		if p.Exit != "return" || bad != "" {
+			return
+		}
+		// out <- the parameter
+		outs := p.storesTo(tW, "out")
+		if len(outs) == 0 || p.stripR(outs[len(outs)-1].Val).V != ssa.Value(fn.Params[0]) {
+			bad = "the writer's output is not the io.Writer it was created for"
+			return
+		}
+		isFile := false
+		for _, a := range p.Atoms {
+			c := p.cmpOf(a)
+			if c.Op != token.ILLEGAL || !c.Pol {
+				continue
+			}
+			if ex, ok := c.X.V.(*ssa.Extract); ok && ex.Index == 1 {
+				if ta, ok := ex.Tuple.(*ssa.TypeAssert); ok && typeName(ta.AssertedType) == "os.File" && p.R(Val{ta.X, c.X.F, c.X.E}).V == ssa.Value(fn.Params[0]) {
+					isFile = true
+				}
+			}
+		}
+		isTerm := p.hasBool(-1, true, func(v Val) bool {
+			c, ok := v.V.(*ssa.Call)
+			return ok && c.Call.StaticCallee() != nil && c.Call.StaticCallee().Name() == "IsTerminal" && c.Call.StaticCallee().Pkg == w.Cw
+		})
+		term := false
+		for _, st := range p.storesTo(tW, "terminal") {
+			if bv, ok := constBool(p.R(st.Val).V); ok {
+				term = bv
+			} else {
+				// terminal <- IsTerminal(fd) form
+				if c, ok := p.stripR(st.Val).V.(*ssa.Call); ok && c.Call.StaticCallee() != nil && c.Call.StaticCallee().Name() == "IsTerminal" {
+					// the flag is the platform's answer; a later test of the field is a test of that answer
+					fieldTrue := p.hasBool(-1, true, func(v Val) bool { return p.loadsField(v, tW, "terminal") })
+					term = isTerm || fieldTrue
+					isTerm = term
+					if !isFile {
+						bad = "the terminal test is made on something other than the output file's descriptor"
+					}
+					continue
+				}
+				bad = "the terminal flag is set from an unrecognised value"
+			}
+		}
+		// a path that tests the flag it has just stored against the stored value is infeasible
+		if p.hasBool(-1, !term, func(v Val) bool { return p.loadsField(v, tW, "terminal") }) {
+			return
+		}
+		if term {
+			sawTerm = true
+			if !(isFile && isTerm) {
+				bad = "the writer claims to be a terminal on a path where the output is not a file that the platform reports as a terminal: bars and cursor controls would be written into files and pipes"
+			}
+		} else {
+			sawPlain = true
+		}
+		// the size query is the platform's exactly for terminals
+		usesGetSize := false
+		for _, st := range p.storesTo(tW, "termSize") {
+			v := p.stripR(st.Val).V
+			var f *ssa.Function
+			switch x := v.(type) {
+			case *ssa.Function:
+				f = x
+			case *ssa.MakeClosure:
+				f, _ = x.Fn.(*ssa.Function)
+			}
+			usesGetSize = false
+			if f != nil {
+				if f.Name() == "GetSize" && f.Pkg == w.Cw {
+					usesGetSize = true
+				}
+				for _, b := range f.Blocks {
+					for _, in := range b.Instrs {
+						if c, ok := in.(*ssa.Call); ok && c.Call.StaticCallee() != nil && c.Call.StaticCallee().Name() == "GetSize" && c.Call.StaticCallee().Pkg == w.Cw {
+							usesGetSize = true
+						}
+					}
+				}
+			}
+		}
+		if term != usesGetSize && bad == "" {
+			bad = "the size query installed does not match the terminal flag (a terminal must be asked for its size, anything else must not)"
+		}
+	})
+	if over {
+		r.Undecided(rule, "cwriter.New", w.pos(fn.Pos()), "path cap")
+		return
+	}
+	r.Check(bad == "" && nP > 0 && sawTerm && sawPlain, rule, "cwriter.New", w.pos(fn.Pos()), "out = the caller's writer; terminal iff *os.File and IsTerminal(fd); size query accordingly", orStr(bad, "terminal / non-terminal path missing"))
+	if f := w.Func("cwriter.(*Writer).IsTerminal"); f != nil {
+		ok := true
+		w.enumPaths(f, pathOpts{}, func(p *Path) {
+			if p.Exit == "return" && len(p.Ret) == 1 && !p.loadsField(p.Ret[0], tW, "terminal") {
+				ok = false
+			}
+		})
+		r.Check(ok, rule, "cwriter.Writer.IsTerminal", w.pos(f.Pos()), "reports the flag set by New", "IsTerminal does not report the writer's terminal flag")
+	}
+	if f := w.Func("cwriter.(*Writer).GetTermSize"); f != nil {
+		ok := false
+		w.enumPaths(f, pathOpts{}, func(p *Path) {
+			for _, ev := range p.Events {
+				if c, isC := ev.In.(*ssa.Call); isC && c.Call.StaticCallee() == nil && !c.Call.IsInvoke() && len(c.Call.Args) == 1 {
+					if p.loadsField(p.val(ev, c.Call.Value), tW, "termSize") && p.loadsField(p.val(ev, c.Call.Args[0]), tW, "fd") {
+						ok = true
+					}
+				}
+			}
+		})
+		r.Check(ok, rule, "cwriter.Writer.GetTermSize", w.pos(f.Pos()), "termSize(fd)", "GetTermSize does not query the installed size function with the writer's own descriptor")
+	}
+}
